@@ -42,7 +42,8 @@ SEARCH_RULE = ('DKW band eps_n = sqrt(ln(2/delta)/(2n)), delta = 1e-9.  Required
                'within 2 eps\'_n), TruncatedGaussian on large-scale (1e3) asymmetrically truncated data (n = 5000, every dataset within '
                '2 eps\'_n / 3 eps\'_n), TruncatedGaussian with '
                'user bounds equal to 0, fitted Beta support not wider than 3x the data range for data inside (0,1))')
-PARTIAL = ['consistency_partial: the DKW-band closeness of the fitted CDF to the generating/empirical CDF is a statistical '
+PARTIAL = ['Props/C04b settles truncated_generating_law_feasible_partial: exact feasibility iff (a <= 0 <= b and 1 <= sigma (b-a)^2), sharpness of the partial hypothesis, and a counterexample showing the unrestricted clause is false for every support',
+           'consistency_partial: the DKW-band closeness of the fitted CDF to the generating/empirical CDF is a statistical '
            'statement about the sample and scipy\'s optimisers (fmin for the MLE families, SLSQP for TruncatedGaussian); no Lean '
            'theorem, checked by the search experiment only',
            'kde_pdf_integrates is proved for the exact constant 1/sqrt(2 pi); the executable kernel uses a 20-digit decimal for it '
